@@ -984,8 +984,9 @@ def c11(chk, tier):
             if percls.get(cls, 0) >= cap:
                 continue
             percls[cls] = percls.get(cls, 0) + 1
-            # a fault inside a macro body may be reported at the PASTE lines that bring it in
-            if any(st <= at < en for (st, en) in macro_spans):
+            # a duplicate that arises inside a macro body may be reported at the PASTE lines that bring it in; a directive
+            # that lacks its parameter is at fault where it stands
+            if inmacro and fault != "missing_param":
                 sites = sites + [(ls2 + (len(data) - len(d) if ls2 > at else 0), e2 + (len(data) - len(d) if ls2 > at else 0)) for (ls2, e2) in paste_lines]
             cid = "ff%d_%d" % (n, j)
             cases.append(case(cid, {fx.root: data}, fx.root))
